@@ -101,9 +101,16 @@ def run(tier, seed):
         check_circuit(nn, (), env, extra, 1)
         for op in a:
             check_circuit(nn, (op,), env, extra, 1)
+    # every branch of the phase label: multiples of pi/4 of either sign up to 13 pi/4, their neighbours, plain / Parameter
+    import math
+    phis = [k * math.pi / 4 for k in range(-13, 14)] + [math.pi + 1e-9, 2 * math.pi - 1e-7, 1e-12, env.PH[2], -env.PH[1], 100.0]
+    for phi in phis:
+        for op in (("ps", 0, phi, 0), ("psP", 1, False, phi), ("psP", 0, True, phi), ("ps", 1, phi, env.L2)):
+            check_circuit(2, (op,), env, extra, 1)
     acc.merge(extra)
     meta = {
-        "rule": "every program of length <= depth over the rich alphabet at n=4 (plus sizes 1, 2, 6 and the empty circuit) x "
+        "rule": "every program of length <= depth over the rich alphabet at n=4 (plus sizes 1, 2, 6 and the empty circuit; plus a "
+                "phase shifter at every multiple of pi/4 in [-13pi/4, 13pi/4] and near-multiples, as number / Parameter / lossy) x "
                 "{svg, mpl (every k-th option set)} x display_loss x show_parameter_values x mode_labels {None, right "
                 "length} must return a drawing; 6 deviations (label list one too long / short for both back-ends, unknown "
                 "display types) must raise DisplayError; full fingerprint of the circuit and the parameter values "
